@@ -1,11 +1,15 @@
 (* Property C12 — answers are invariant under symmetries and re-encodings.
-   PARTIAL: kernel-checked for the ring attributes, the segment kernels and
-   point membership (every predicate whose model is proved equal to its
-   specification); the invariances of ring-level contains/intersects are
-   checked metamorphically on every run (implementation and model). *)
+   Translation and positive scaling: proved for every pair predicate of the model
+   (AffinePairs.v), i.e. - the model being the code on every case of the
+   correspondence, known findings included - the translation / power-of-two
+   clause of C12 for the code as it is.  Re-encodings: kernel-checked for the
+   ring attributes, the segment kernels and candidate order.  PARTIAL: reflection
+   and re-encoding invariance of ring-level contains / intersects are checked
+   metamorphically on every run (they fail exactly on the known C03/C12
+   findings). *)
 From Coq Require Import Sorting.Permutation.
 From GJ Require Import Base Kernel KernelSpec KernelProofs IntersectsProofs Series SeriesSpec SeriesProofs
-  Ring RingSpec PipProofs Invariance.
+  Ring RingSpec PipProofs PairSpec Pairs Invariance AffinePairs.
 Open Scope Z_scope.
 
 (* translation by (dx,dy) and scaling by k > 0 (k = 2^j in the property) *)
@@ -36,6 +40,15 @@ Theorem C12_rect_membership_affine : forall k dx dy, 0 < k -> forall (r : rect) 
   rect_contains_point (aff k dx dy (fst r), aff k dx dy (snd r)) (aff k dx dy p) = rect_contains_point r p.
 Proof. exact rect_contains_point_aff. Qed.
 
+(* MAIN (translation / scaling clause): every contains / intersects answer of the model - all sixteen receiver x
+   argument pairs, every decision site of ringContainsSegment, the Line.ContainsLine walk - is unchanged when both
+   non-empty geometries are mapped by p |-> (k x + dx, k y + dy), k > 0 (Move: k = 1) *)
+Theorem C12_pair_predicates_translation_scaling : forall k dx dy, 0 < k -> forall a b,
+  shape_ok a -> shape_ok b ->
+  g_intersects (g_of_shape (shape_aff k dx dy a)) (g_of_shape (shape_aff k dx dy b)) = g_intersects (g_of_shape a) (g_of_shape b) /\
+  g_contains (g_of_shape (shape_aff k dx dy a)) (g_of_shape (shape_aff k dx dy b)) = g_contains (g_of_shape a) (g_of_shape b).
+Proof. exact pair_predicates_affine. Qed.
+
 (* re-encodings: endpoint order of a segment, candidate order, start vertex, closing vertex *)
 Theorem C12_raycast_endpoint_order : forall a b p, raycast (a, b) p = raycast (b, a) p.
 Proof. exact raycast_sym. Qed.
@@ -53,6 +66,7 @@ Theorem C12_closing_vertex : forall vs, vs <> [] -> pt_eqb (last vs pt0) (hd pt0
 Proof. exact ring_vertices_closing. Qed.
 
 Print Assumptions C12_raycast_affine.
+Print Assumptions C12_pair_predicates_translation_scaling.
 Print Assumptions C12_intersects_segment_affine.
 Print Assumptions C12_polygon_membership_affine.
 Print Assumptions C12_membership_candidate_order.
